@@ -18,7 +18,7 @@ fn tree(dir: &Path) -> BTreeMap<String, String> {
     let mut m = BTreeMap::new(); walk(dir, dir, &mut m); m
 }
 
-async fn read_entries(zip: &Path) -> anyhow::Result<Vec<(String, Vec<u8>)>> {
+pub async fn read_entries(zip: &Path) -> anyhow::Result<Vec<(String, Vec<u8>)>> {
     let f = tokio::io::BufReader::new(tokio::fs::File::open(zip).await?);
     let mut r = ZipReader::new(f).await?;
     let names: Vec<String> = r.inner().file().entries().iter().filter_map(|e| e.filename().as_str().ok().map(|s| s.to_string())).collect();
